@@ -155,6 +155,7 @@ func tail(s string, n int) string {
 }
 
 type searchResult struct {
+	notes     []string
 	sums      []summary
 	crashes   []crashRec
 	traces    int
@@ -498,7 +499,17 @@ func (b *build) explore(prop, tier string, seed int64, workers int, tc tierCfg, 
 		// a worker died: re-execute the run it was in, alone, recording the tape
 		path, ok := b.handleCrash(prop, tier, seed, c, avoid)
 		if !ok {
-			infra("worker %d died in run %d but the run does not crash when re-executed alone:\n%s", c.worker, c.run, c.output)
+			// Not the run alone. The worker's whole sequence of runs up to that one is a pure
+			// function of the seed as well: if the same process history does not die either,
+			// the death had a cause outside the simulation (and outside the inputs) - it is
+			// reported, it is not a verdict, and nothing can be replayed from it.
+			if c.run >= 0 && b.rerunSequence(prop, tier, seed, workers, c, avoid) {
+				note := fmt.Sprintf("NOTE: worker %d died once in run %d; neither that run alone nor the worker's sequence of runs up to it dies when executed again (same seed): cause outside the simulation, not a verdict. Output of the dead worker:\n%s", c.worker, c.run, tail(c.output, 12))
+				fmt.Println(note)
+				sr.notes = append(sr.notes, note)
+				continue
+			}
+			infra("worker %d died in run %d; the run does not crash when re-executed alone but the worker's sequence of runs up to it does: a crash that depends on process history cannot be minimised to a replay file:\n%s", c.worker, c.run, c.output)
 		}
 		lines = append(lines, fmt.Sprintf("VIOLATION property=%s replay=%s", prop, path))
 		violations++
@@ -599,6 +610,30 @@ func (b *build) samples(prop, tier string, seed int64, workers int, avoid []stri
 }
 
 // handleCrash re-executes a run that killed its worker.
+// rerunSequence executes the runs worker c.worker had executed when it died (indices c.worker,
+// c.worker+workers, ... c.run) again in one fresh process. true = it got through them.
+func (b *build) rerunSequence(prop, tier string, seed int64, workers int, c crashRec, avoid []string) bool {
+	n := (c.run-c.worker)/workers + 1
+	out := filepath.Join(b.dir, "out-rerun")
+	os.MkdirAll(out, 0o755)
+	cmd := b.command("-prop", prop, "-tier", tier, "-seed", fmt.Sprint(seed), "-worker", fmt.Sprint(c.worker), "-nworkers", fmt.Sprint(workers),
+		"-budget", "3h", "-maxruns", fmt.Sprint(n), "-out", out, "-avoid", strings.Join(avoid, ","))
+	cmd.Env = append(cmd.Env, b.searchEnv()...)
+	done := make(chan error, 1)
+	if err := cmd.Start(); err != nil {
+		return false
+	}
+	go func() { done <- cmd.Wait() }()
+	select {
+	case err := <-done:
+		return err == nil
+	case <-time.After(40 * time.Minute):
+		cmd.Process.Kill()
+		<-done
+		return false
+	}
+}
+
 func (b *build) handleCrash(prop, tier string, seed int64, c crashRec, avoid []string) (string, bool) {
 	if c.run < 0 {
 		return "", false
